@@ -25,6 +25,48 @@ from vlib.common import (SYMBOLIC, install_stubs, note, pick, plain,
 
 install_stubs(composer=False)
 
+# ---- PyYAML as it is BEFORE any yatiml function has been created or called
+_PY_PROBES = ['a: 1e5\nb: [yes, no, 1_000, 2001-12-14]\n', 'x: 1.5\n',
+              "k: 'true'\n", '- 1_000.5\n- 190:20:30.15\n- 0o17\n- .5e3\n',
+              'true: on\n']
+_PY_VALUES = [{'b': ['yes', 1e5, '1e5', '.5e3', True], 'a': None},
+              ['1_000', 1.5e-7, 'null', '~']]
+
+
+def _pyyaml_probe():
+    out = []
+    for p in _PY_PROBES:
+        try:
+            out.append(repr(yaml.safe_load(p)))
+        except Exception as e:   # noqa
+            out.append('error ' + type(e).__name__)
+    for v in _PY_VALUES:
+        out.append(yaml.safe_dump(v))
+    return out
+
+
+def _pyyaml_tables():
+    sig = []
+    for c in (yaml.SafeLoader, yaml.SafeDumper, yaml.Loader, yaml.Dumper,
+              yaml.BaseLoader, yaml.resolver.Resolver,
+              yaml.resolver.BaseResolver, yaml.constructor.SafeConstructor,
+              yaml.representer.SafeRepresenter):
+        for name in ('yaml_constructors', 'yaml_multi_constructors',
+                     'yaml_representers', 'yaml_multi_representers',
+                     'yaml_implicit_resolvers', 'yaml_path_resolvers'):
+            t = getattr(c, name, None)
+            if isinstance(t, dict):
+                sig.append((c.__name__, name, sorted(
+                    (repr(k), [(x[0], x[1].pattern) if isinstance(x, tuple)
+                               else getattr(x, '__qualname__', repr(type(x)))
+                               for x in (v if isinstance(v, list) else [v])])
+                    for k, v in t.items())))
+    return sig
+
+
+PRISTINE_PROBE = _pyyaml_probe()
+PRISTINE_TABLES = _pyyaml_tables()
+
 ENCODED = [
     'yatiml.loader.load_function, add_to_loader, set_document_type, '
     'Loader.__init__ (per-instance resolver patches), LoadFunction.__call__',
@@ -71,6 +113,25 @@ def _mk_Q():
     return Doc, Sub
 
 
+class DBase:
+    """_yatiml_defaults on a base class shared by two unrelated classes."""
+    _yatiml_defaults = {'mode': 'x'}    # type: Dict[str, Any]
+
+    @classmethod
+    def _yatiml_sweeten(cls, node: yatiml.Node) -> None:
+        node.remove_attributes_with_default_values(cls)
+
+
+class Timeout(DBase):
+    def __init__(self, name: str, limit: int = 3, mode: str = 'm') -> None:
+        self.name, self.limit, self.mode = name, limit, mode
+
+
+class Retry(DBase):
+    def __init__(self, name: str, limit: int = 30, mode: str = 'm') -> None:
+        self.name, self.limit, self.mode = name, limit, mode
+
+
 PD, PS = _mk_P()
 QD, QS = _mk_Q()
 DOCS = ['a: 1\ns:\n  x: 2\n', 'b: t\ns:\n  y: u\n', 'a: [1\n', 'zz: 1\n']
@@ -87,6 +148,9 @@ def _functions():
         'dumpsQ': yatiml.dumps_function(QD, QS),
         'jsonP': yatiml.dumps_json_function(PD, PS),
         'jsonQ': yatiml.dumps_json_function(QD, QS),
+        'dumpsT': yatiml.dumps_function(Timeout),
+        'dumpsR': yatiml.dumps_function(Retry),
+        'loadR': yatiml.load_function(Retry),
     }
 
 
@@ -114,15 +178,17 @@ def _battery(F):
     out.append(_outcome(lambda: F['jsonP'](PD(1, PS(2)), indent=2)))
     out.append(_outcome(lambda: F['jsonQ']([QD('t'), 'é'],
                                            ensure_ascii=False)))
+    out.append(_outcome(lambda: F['dumpsT'](Timeout('t'))))
+    out.append(_outcome(lambda: F['dumpsR'](Retry('r', 3))))
+    out.append(_outcome(lambda: F['dumpsR'](Retry('r', 30, 'x'))))
+    out.append(_outcome(lambda: F['loadR'](F['dumpsR'](Retry('r', 3)))))
     # classes registered with one function are unknown to the others
     out.append(_outcome(lambda: F['dumpsP'](QD('t'))))
     out.append(_outcome(lambda: F['jsonQ'](PS(1))))
     out.append(_outcome(lambda: F['loadAny']('!Doc {a: 1}')))
-    # PyYAML itself
-    for p in PROBES:
-        out.append(_outcome(lambda: yaml.safe_load(p)))
-    out.append(_outcome(lambda: yaml.safe_dump({'b': ['yes', 1e5, '1e5'],
-                                                'a': None})))
+    # PyYAML itself: what it did before yatiml was ever used
+    out.append(('pyyaml', _pyyaml_probe() == PRISTINE_PROBE,
+                _pyyaml_tables() == PRISTINE_TABLES))
     return out
 
 
@@ -183,8 +249,11 @@ def snapshot():
                 yatiml.util.scalar_type_to_tag),
             # __slotnames__ is copyreg's cache on the class (written by
             # copy/pickle machinery, e.g. the engine's own deep copies)
-            'user': [sorted(k for k in c.__dict__ if k != '__slotnames__')
-                     for c in (PD, PS, QD, QS)]}
+            'user': [sorted((k, _table_sig(v) if isinstance(
+                v, (dict, list, set, str, int, float, bool, type(None)))
+                else '') for k, v in c.__dict__.items()
+                if k != '__slotnames__')
+                for c in (PD, PS, QD, QS, DBase, Timeout, Retry)]}
     return snap
 
 
@@ -218,12 +287,16 @@ def _op(op):
         _outcome(lambda: F['loadAny']('&a [*a]'))
     elif op == 18:
         _outcome(lambda: yatiml.load_function(List[int])('[1, x]'))
+    elif op == 19:
+        _outcome(lambda: F['dumpsT'](Timeout('t', 5)))
+    elif op == 20:
+        _outcome(lambda: F['dumpsR'](Retry('r')))
     else:
         _outcome(lambda: yatiml.dump_json_function()({'a': 1},
                                                      io.StringIO()))
 
 
-NOPS = 20
+NOPS = 22
 
 
 def _history(n, o1, o2, o3, o4):
@@ -251,7 +324,7 @@ def _history(n, o1, o2, o3, o4):
 def histories(n: int, o1: int, o2: int, o3: int, o4: int) -> bool:
     """
     pre: 0 <= n <= 3
-    pre: 0 <= o1 < 20 and 0 <= o2 < 20 and 0 <= o3 < 20 and o4 == 0
+    pre: 0 <= o1 < 22 and 0 <= o2 < 22 and 0 <= o3 < 22 and o4 == 0
     post: __return__
     """
     s = slice_no(-1)
@@ -268,7 +341,7 @@ def histories(n: int, o1: int, o2: int, o3: int, o4: int) -> bool:
 
 def histories2(o1: int, o2: int) -> bool:
     """
-    pre: 0 <= o1 < 20 and 0 <= o2 < 20
+    pre: 0 <= o1 < 22 and 0 <= o2 < 22
     post: __return__
     """
     s = slice_no(-1)
@@ -279,7 +352,7 @@ def histories2(o1: int, o2: int) -> bool:
 
 def histories_reach(o1: int, o2: int) -> bool:
     """
-    pre: 0 <= o1 < 20 and 0 <= o2 < 20
+    pre: 0 <= o1 < 22 and 0 <= o2 < 22
     post: __return__
     """
     if o1 != 14:
@@ -289,17 +362,19 @@ def histories_reach(o1: int, o2: int) -> bool:
 
 
 CONDITIONS = [
-    {'fn': 'histories2', 'slices': list(range(20)), 'quick': 110,
+    {'fn': 'histories2', 'slices': list(range(22)), 'quick': 110,
      'thorough': None,
-     'bound': 'all 400 histories of 2 operations out of 20: snapshot of every '
+     'bound': 'all 484 histories of 2 operations out of 22: snapshot of every '
               'PyYAML/yatiml class-level registry, of the long-lived '
               'functions\' classes and of the user classes unchanged after '
-              'each step; afterwards a battery of 27 calls (P/Q/Any loaders, '
-              'YAML and JSON dumpers, cross-class-set calls, yaml.safe_load/'
-              'safe_dump probes) equals the fresh-function baseline'},
-    {'fn': 'histories', 'slices': list(range(20)), 'quick': None,
+              'each step; afterwards a battery of calls (P/Q/Any loaders, '
+              'YAML and JSON dumpers, default-dropping classes sharing a base, '
+              'cross-class-set calls) equals the fresh-function baseline, and '
+              'yaml.safe_load/safe_dump probes and PyYAML\'s class-level '
+              'tables equal what they were before yatiml was first used'},
+    {'fn': 'histories', 'slices': list(range(22)), 'quick': None,
      'thorough': 900,
-     'bound': 'all histories of <= 3 operations out of 20 (one slice per '
+     'bound': 'all histories of <= 3 operations out of 22 (one slice per '
               'first operation), same assertions'},
     {'fn': 'histories_reach', 'quick': 60, 'thorough': 60,
      'expect': 'REFUTED',
